@@ -9,8 +9,8 @@ P(k) == Dec(k * SCALE, "plain")
 Cfgs ==
   LET mk(inc, af, bf) ==
         InstMsg("ats", "base", <<"cv1">>, <<"q1">>, <<"appr1">>, <<"exec1">>, af, bf, <<>>, <<>>, 0, inc)
-      AF == FeeInfo("askfee1", Dec(5000, "plain"))       \* 0.5
-      BF == FeeInfo("bidfee1", Dec(2500, "plain"))       \* 0.25
+      AF == FeeInfo("askfee1", Dec(500000, "plain"))     \* 0.5
+      BF == FeeInfo("bidfee1", Dec(250000, "plain"))     \* 0.25
   IN IF Tier = "quick" THEN {mk(2, AF, BF), mk(1, NoFeeInfo, NoFeeInfo)}
      ELSE {mk(i, a, b) : i \in {1, 2}, a \in {NoFeeInfo, AF}, b \in {NoFeeInfo, BF}}
 
